@@ -382,21 +382,27 @@ Definition theta_loop (theta_start theta_end : F64) : outcome F64 :=
   iter_fuel (fun te : F64 => if D.lt te theta_start then inl (D.add te d_two_pi) else inr (Done te))
             theta_fuel theta_end.
 
+(* the circum-centre (Cartesian formula of the source), written once over
+   abstract field operations: the model uses the IEEE binary32 instance,
+   Proofs/ArcExact reads it over the reals.
+     d = 2 * (a.x * (b - c).y + b.x * (c - a).y + c.x * (a - b).y)
+     x = (a_sq * (b - c).y + b_sq * (c - a).y + c_sq * (a - b).y) / d
+     y = (a_sq * (c - b).x + b_sq * (a - c).x + c_sq * (b - a).x) / d *)
+Definition arc_centre_g {T} (add sub mul div : T -> T -> T) (two : T) (ax ay bx by_ cx cy : T) : T * T :=
+  let d := mul two (add (add (mul ax (sub by_ cy)) (mul bx (sub cy ay))) (mul cx (sub ay by_))) in
+  let a_sq := add (mul ax ax) (mul ay ay) in
+  let b_sq := add (mul bx bx) (mul by_ by_) in
+  let c_sq := add (mul cx cx) (mul cy cy) in
+  (div (add (add (mul a_sq (sub by_ cy)) (mul b_sq (sub cy ay))) (mul c_sq (sub ay by_))) d,
+   div (add (add (mul a_sq (sub cx bx)) (mul b_sq (sub ax cx))) (mul c_sq (sub bx ax))) d).
+
 Definition circular_arc_properties (lm : Libm) (a b c : Pos) : outcome (option ArcProps) :=
   if S.le (S.abs (S.sub (S.mul (S.sub (py b) (py a)) (S.sub (px c) (px a)))
                         (S.mul (S.sub (px b) (px a)) (S.sub (py c) (py a))))) S.eps
   then Done None
   else
-    let d := S.mul s2 (S.add (S.add (S.mul (px a) (py (psub b c))) (S.mul (px b) (py (psub c a))))
-                             (S.mul (px c) (py (psub a b)))) in
-    let a_sq := plen_sq a in
-    let b_sq := plen_sq b in
-    let c_sq := plen_sq c in
-    let centre := mkPos
-      (S.div (S.add (S.add (S.mul a_sq (py (psub b c))) (S.mul b_sq (py (psub c a))))
-                    (S.mul c_sq (py (psub a b)))) d)
-      (S.div (S.add (S.add (S.mul a_sq (px (psub c b))) (S.mul b_sq (px (psub a c))))
-                    (S.mul c_sq (px (psub b a)))) d) in
+    let '(ccx, ccy) := arc_centre_g S.add S.sub S.mul S.div s2 (px a) (py a) (px b) (py b) (px c) (py c) in
+    let centre := mkPos ccx ccy in
     let d_a := psub a centre in
     let d_c := psub c centre in
     let radius := plen d_a in
